@@ -19,6 +19,7 @@ from ..signal import Signal, PortDir, Visibility
 from ..slice import Slice
 from ..concat import Concat
 from ..literal import Literal
+from ..scalar import Scalar
 from .. import primitives
 from ..primitives import Primitive, Vpulse
 
@@ -164,7 +165,7 @@ class ProtoImporter:
                 # Import a VLSIR primitive to an ideal element, and convert its parameters
                 target = import_vlsir_primitive(ref.external)
                 remapped_params = import_primitive_params(target, params)
-                params = target.Params(**unset_params(target, remapped_params))
+                params = target.Params(**unset_params(target, literal_params(target, remapped_params)))
 
             elif ref.external.domain in (
                 "hdl21.primitives",
@@ -172,7 +173,7 @@ class ProtoImporter:
             ):
                 # Retrieve the Primitive from `hdl21.primitives`, and convert its parameters
                 target = import_hdl21_primitive(ref.external)
-                params = target.Params(**unset_params(target, params))
+                params = target.Params(**unset_params(target, literal_params(target, params)))
 
             else:  # Externally-defined `ExternalModule`
                 # These must be declared in our `Package` being imported. Look up its header-info from `ext_modules`.
@@ -413,3 +414,11 @@ def unset_params(target: Primitive, params: Dict[str, Any]) -> Dict[str, Any]:
     The exporter leaves out exactly the `None`-valued parameters, so `None` is what these were -
     and not the default value of the parameter, which a re-export would then write."""
     return {**{name: None for name in target.Params.__params__}, **params}
+
+
+def literal_params(target: Primitive, params: Dict[str, Any]) -> Dict[str, Any]:
+    """Give the string-valued `params` of an instance of `target` back their `Literal` type, where the parameter is a `Scalar`.
+    Numbers are stored in packages as numbers, so a string destined for a `Scalar` was a `Literal` when exported.
+    Left as a string, scalar conversion would turn one whose text looks like a number into a `Prefixed`."""
+    scalars = [n for n, p in target.Params.__params__.items() if p.dtype in (Scalar, Optional[Scalar])]
+    return {n: Literal(v) if n in scalars and isinstance(v, str) else v for n, v in params.items()}
